@@ -199,8 +199,8 @@ fn b(v: bool) -> Value {
 const N: Value = Value::Null;
 
 /// The fixed list of 12 "rich" databases used by the metamorphic checks
-/// (label, database).  Every table has ≤ 4 rows; values stay inside
-/// `Domain::thorough()`.
+/// (label, database).  Every table has ≤ 4 rows; values are those of
+/// `Domain::thorough()` plus the text 'ab'.
 pub fn rich_databases() -> Vec<(String, Database)> {
     let mk = |t: Vec<Row>, u: Vec<Row>, w: Vec<Row>| Database::empty().with_rows("t", t).with_rows("u", u).with_rows("w", w);
     vec![
